@@ -838,3 +838,253 @@ Proof.
   unfold flags_step. rewrite Fi, Rs, R. cbn. rewrite R. reflexivity.
 Qed.
 End Reach.
+
+(* ======================= both ends together ======================================= *)
+Lemma late_app : forall F1 F2 b, late b (F1 ++ F2) = late b F1 || late (b || seen F1) F2.
+Proof.
+  induction F1 as [|x F1 IH]; intros F2 b; cbn [app late seen existsb].
+  - rewrite orb_false_r. reflexivity.
+  - rewrite IH. fold (seen F1). rewrite <- !orb_assoc. reflexivity.
+Qed.
+
+Lemma seen_app : forall F1 F2, seen (F1 ++ F2) = seen F1 || seen F2.
+Proof. intros. unfold seen. apply existsb_app. Qed.
+
+Lemma late_nofin : forall fs, Forall (fun f => finrst f = false) fs -> late false fs = false /\ seen fs = false.
+Proof.
+  induction 1 as [|f fs Hf _ IH]; cbn [late seen existsb]; [auto|].
+  rewrite Hf. cbn [andb orb]. exact IH.
+Qed.
+
+Lemma late_nodata : forall fs b, Forall (fun f => nonempty_data f = false) fs -> late b fs = false.
+Proof.
+  induction fs as [|f fs IH]; intros b H; cbn [late]; [reflexivity|].
+  inversion H; subst. rewrite H2, andb_false_r. cbn [orb]. apply IH. assumption.
+Qed.
+
+Lemma snd_step_late : forall M s op s1 fs a,
+  snd_step M s op = (s1, fs, a) ->
+  late false fs = false /\
+  (seen fs = true -> is_open (s_st s1) = false) /\
+  (is_open (s_st s) = false -> late true fs = false).
+Proof.
+  intros M s op s1 fs a H.
+  assert (WF : forall x b1 b2 b3 b4 b, late b [wframe x b1 b2 b3 b4 0] = false).
+  { intros. cbn [late]. unfold nonempty_data, wframe, is_data; cbn. rewrite andb_false_r. reflexivity. }
+  assert (CUT : forall fu M0 sid w p fs0 w0 p0, cut fu M0 sid w p = (fs0, w0, p0) -> late false fs0 = false /\ seen fs0 = false).
+  { intros fu M0 sid w p fs0 w0 p0 C. apply cut_spec in C. destruct C as (_ & _ & C & _). apply late_nofin.
+    eapply Forall_impl; [|exact C]. intros f (_ & _ & _ & _ & _ & _ & F1 & F2). unfold finrst. rewrite F1, F2. reflexivity. }
+  destruct op as [acc|bs|d| |]; cbn [snd_step] in H.
+  - inversion H; subst. rewrite !WF. repeat split; auto. cbn. discriminate.
+  - destruct (is_open (s_st s)) eqn:O.
+    + destruct (cut (length (s_pend s ++ bs)) M (s_sid s) (s_win s) (s_pend s ++ bs)) as [[fs' w] p'] eqn:C.
+      inversion H; subst. destruct (CUT _ _ _ _ _ _ _ _ C) as [C1 C2]. rewrite C1, C2. repeat split; auto; discriminate.
+    + inversion H; subst. cbn. repeat split; auto; discriminate.
+  - destruct (is_open (s_st s)) eqn:O.
+    + destruct (cut (length (s_pend s)) M (s_sid s) (s_win s + d) (s_pend s)) as [[fs' w] p'] eqn:C.
+      inversion H; subst. destruct (CUT _ _ _ _ _ _ _ _ C) as [C1 C2]. rewrite C1, C2. repeat split; auto; discriminate.
+    + inversion H; subst. cbn. repeat split; auto; discriminate.
+  - destruct (is_open (s_st s)) eqn:O.
+    + inversion H; subst. rewrite !WF. repeat split; auto.
+    + inversion H; subst. cbn. repeat split; auto; discriminate.
+  - destruct (s_st s) eqn:O; inversion H; subst; rewrite ?WF; cbn [is_open s_st]; repeat split; auto; cbn; discriminate.
+Qed.
+
+(* the sender never puts data after its own FIN/RST *)
+Lemma snd_run_late : forall M ops s evs acc,
+  late false (ev_frames evs) = false ->
+  (seen (ev_frames evs) = true -> is_open (s_st s) = false) ->
+  let rr := snd_run M s evs acc ops in
+  late false (ev_frames (sr_ev rr)) = false.
+Proof.
+  intros M. induction ops as [|op ops IH]; intros s evs acc L S; cbn [snd_run]; [exact L|].
+  destruct (snd_step M s op) as [[s1 fs] a] eqn:E.
+  destruct (snd_step_late _ _ _ _ _ _ E) as (T1 & T2 & T3).
+  destruct (snd_step_spec _ _ _ _ _ _ E) as (_ & _ & _ & _ & S5 & _).
+  apply IH.
+  - rewrite !ev_frames_app, ev_frames_op_ev, ev_frames_map. cbn [app]. rewrite late_app, L. cbn [orb].
+    destruct (seen (ev_frames evs)) eqn:Sn; [apply T3, S; reflexivity|exact T1].
+  - rewrite !ev_frames_app, ev_frames_op_ev, ev_frames_map. cbn [app]. rewrite seen_app. intros X.
+    apply orb_prop in X. destruct X as [X|X]; [apply S5, S, X|apply T2, X].
+Qed.
+
+Lemma snd_run_ev_prefix : forall M ops s evs acc,
+  exists tl, sr_ev (snd_run M s evs acc ops) = evs ++ tl.
+Proof.
+  intros M. induction ops as [|op ops IH]; intros s evs acc; cbn [snd_run].
+  - exists []. rewrite app_nil_r. reflexivity.
+  - destruct (snd_step M s op) as [[s1 fs] a]. destruct (IH s1 (evs ++ op_ev op ++ map EvF fs) (acc ++ a)) as [tl E].
+    rewrite E, <- app_assoc. eauto.
+Qed.
+
+Lemma snd_run_app : forall M a b s evs acc,
+  snd_run M s evs acc (a ++ b) =
+  snd_run M (sr_st (snd_run M s evs acc a)) (sr_ev (snd_run M s evs acc a)) (sr_acc (snd_run M s evs acc a)) b.
+Proof.
+  intros M. induction a as [|op a IH]; intros b s evs acc; cbn [app snd_run]; [reflexivity|].
+  destruct (snd_step M s op) as [[s1 fs] x]. apply IH.
+Qed.
+
+Lemma snd_run_closed : forall M ops s evs acc,
+  is_open (s_st s) = false ->
+  payload (ev_frames (sr_ev (snd_run M s evs acc ops))) = payload (ev_frames evs) /\
+  sr_acc (snd_run M s evs acc ops) = acc.
+Proof.
+  intros M. induction ops as [|op ops IH]; intros s evs acc O; cbn [snd_run]; [auto|].
+  destruct (snd_step M s op) as [[s1 fs] a] eqn:E.
+  destruct (snd_step_spec _ _ _ _ _ _ E) as (_ & _ & _ & _ & S5 & _). destruct (S5 O) as (O1 & P & A).
+  destruct (IH s1 (evs ++ op_ev op ++ map EvF fs) (acc ++ a) O1) as [I1 I2]. rewrite I1, I2.
+  rewrite !ev_frames_app, ev_frames_op_ev, ev_frames_map. cbn [app]. rewrite payload_app, P, A, !app_nil_r. auto.
+Qed.
+
+(* Writes that all completed, then CloseWrite (and anything after it): everything
+   accepted is on the wire, no data follows the FIN *)
+Lemma sender_closed_complete_l : forall M W0 sid w more,
+  let r1 := snd_run M (snd0 W0 sid) [] [] w in
+  is_open (s_st (sr_st r1)) = true -> s_pend (sr_st r1) = [] ->
+  let rr := snd_run M (snd0 W0 sid) [] [] (w ++ SCloseW :: more) in
+  payload (ev_frames (sr_ev rr)) = sr_acc rr /\ sr_acc rr = sr_acc r1 /\
+  existsb f_fin (ev_frames (sr_ev rr)) = true.
+Proof.
+  intros M W0 sid w more r1 O P rr. unfold rr. rewrite snd_run_app. fold r1. cbn [snd_run snd_step]. rewrite O.
+  cbn [op_ev app map]. rewrite (app_nil_r (sr_acc r1)).
+  pose proof (sender_complete_l M W0 sid w) as C. cbn zeta in C. fold r1 in C.
+  set (s1 := mkSnd (s_sid (sr_st r1)) (s_win (sr_st r1)) [] HClosed).
+  destruct (snd_run_closed M more s1 (sr_ev r1 ++ [EvF (wframe (s_sid (sr_st r1)) false false true false 0)]) (sr_acc r1) eq_refl) as [X1 X2].
+  destruct (snd_run_ev_prefix M more s1 (sr_ev r1 ++ [EvF (wframe (s_sid (sr_st r1)) false false true false 0)]) (sr_acc r1)) as [tl X3].
+  rewrite X1, X2. rewrite ev_frames_app, payload_app. cbn [ev_frames payload is_data wframe f_ty app]. rewrite app_nil_r.
+  split; [|split; [reflexivity|]].
+  - destruct M as [|m].
+    + (* M = 0: nothing can ever be sent; pending empty means nothing accepted beyond what was sent *)
+      destruct (sender_cut_l 0 W0 sid w) as ((rest & E & R) & _). fold r1 in E, R. rewrite (R O), P, app_nil_r in E. exact E.
+    + apply C; [lia|exact O|exact P].
+  - rewrite X3, !ev_frames_app. cbn [ev_frames]. rewrite !existsb_app. cbn [existsb wframe f_fin]. rewrite orb_true_r. reflexivity.
+Qed.
+
+Lemma snd_open_head : forall M W0 sid sops,
+  exists tl, ev_frames (sr_ev (snd_run M (snd0 W0 sid) [] [] (SOpen false :: sops))) = wframe sid true false false false 0 :: tl.
+Proof.
+  intros. cbn [snd_run snd_step].
+  match goal with |- context [snd_run ?m ?s ?e ?a ?o] => destruct (snd_run_ev_prefix m o s e a) as [t X]; rewrite X end.
+  cbn. eauto.
+Qed.
+
+Section EndToEnd.
+Variables M W0 MAXW : nat.
+
+(* The frames of stream [sid] that reached the receiving session — in ANY
+   interleaving with the frames of any number of other streams, and with any
+   interleaving of deliveries, Reads (any buffer sizes) and local half-closes —
+   are a prefix of what the stream's sender emitted (the connection keeps each
+   stream's order).  Then the Reads on [sid] return a prefix of the bytes the
+   Writes on [sid] accepted: exactly once, in order, no byte of another stream. *)
+Lemma mux_end_to_end_l : forall sid sops rops,
+  let sr := snd_run M (snd0 W0 sid) [] [] (SOpen false :: sops) in
+  let '(s, outs) := ses_run W0 MAXW ses0 [] rops in
+  (exists tl, frames_for sid (frames_in rops) ++ tl = ev_frames (sr_ev sr)) ->
+  exists rest, delivered sid outs ++ rest = sr_acc sr.
+Proof.
+  intros sid sops rops sr. pose proof (mux_prefix_l W0 MAXW rops sid) as P.
+  destruct (ses_run W0 MAXW ses0 [] rops) as [s outs]. intros [tl E].
+  destruct (sender_cut_l M W0 sid (SOpen false :: sops)) as ((rest & C & _) & _). fold sr in C.
+  assert (Hd : head_syn (frames_for sid (frames_in rops)) = true).
+  { destruct (frames_for sid (frames_in rops)) as [|f F] eqn:EF; [reflexivity|].
+    destruct (snd_open_head M W0 sid sops) as [t X]. fold sr in X. rewrite X in E. cbn [app] in E. inversion E; subst. reflexivity. }
+  destruct (P Hd) as [r1 P1]. rewrite <- E, payload_app, <- P1 in C.
+  exists (r1 ++ payload tl ++ rest). rewrite <- C, <- !app_assoc. reflexivity.
+Qed.
+
+(* ... and all of them, once every frame of the stream was handed over and the
+   reader has emptied its buffer (in particular when it has seen EOF) *)
+Lemma mux_end_to_end_complete_l : forall sid sops rops,
+  let sr := snd_run M (snd0 W0 sid) [] [] (SOpen false :: sops) in
+  let '(s, outs) := ses_run W0 MAXW ses0 [] rops in
+  frames_for sid (frames_in rops) = ev_frames (sr_ev sr) ->
+  payload (ev_frames (sr_ev sr)) = sr_acc sr ->
+  broken s = false ->
+  forall r, lookup sid (streams s) = Some r -> r_buf r = [] ->
+  delivered sid outs = sr_acc sr.
+Proof.
+  intros sid sops rops sr. pose proof (mux_exact_l W0 MAXW rops sid) as P.
+  destruct (ses_run W0 MAXW ses0 [] rops) as [s outs]. intros E C B r L Bf.
+  assert (Hl : late false (ev_frames (sr_ev sr)) = false) by (apply snd_run_late; [reflexivity|discriminate]).
+  assert (Hd : head_syn (ev_frames (sr_ev sr)) = true).
+  { destruct (snd_open_head M W0 sid sops) as [t X]. fold sr in X. rewrite X. reflexivity. }
+  rewrite E in P. specialize (P Hd Hl B r L). rewrite Bf in P. cbn [concat] in P. rewrite app_nil_r in P.
+  rewrite P. exact C.
+Qed.
+End EndToEnd.
+
+(* ======================= order-preserving interleavings ============================ *)
+(* [Interleave ls w]: w is a merge of the lists ls that keeps the order of each *)
+Inductive Interleave : list (list frame) -> list frame -> Prop :=
+  | IL_nil : forall ls, Forall (fun l => l = []) ls -> Interleave ls []
+  | IL_cons : forall ls1 f l ls2 w,
+      Interleave (ls1 ++ l :: ls2) w -> Interleave (ls1 ++ (f :: l) :: ls2) (f :: w).
+
+Lemma interleave_filter : forall ls w, Interleave ls w ->
+  forall sid, Interleave (map (frames_for sid) ls) (frames_for sid w).
+Proof.
+  induction 1 as [ls H|ls1 f l ls2 w H IH]; intros sid.
+  - apply IL_nil. apply Forall_forall. intros x Hx. apply in_map_iff in Hx. destruct Hx as (l & E & Hl).
+    rewrite Forall_forall in H. rewrite (H l Hl) in E. subst x. reflexivity.
+  - specialize (IH sid). rewrite map_app in *. cbn [map] in *. unfold frames_for at 2 4. cbn [filter].
+    destruct (f_sid f =? sid); [apply IL_cons|]; exact IH.
+Qed.
+
+Lemma nth_error_mid : forall (A : Type) (l1 : list A) x l2, nth_error (l1 ++ x :: l2) (length l1) = Some x.
+Proof. intros. rewrite nth_error_app2, Nat.sub_diag; [reflexivity|lia]. Qed.
+
+Lemma nth_error_mid_other : forall (A : Type) (l1 : list A) x y l2 j, j <> length l1 ->
+  nth_error (l1 ++ x :: l2) j = nth_error (l1 ++ y :: l2) j.
+Proof.
+  intros A l1 x y l2 j H. destruct (Nat.lt_ge_cases j (length l1)) as [L|L].
+  - rewrite !nth_error_app1 by exact L. reflexivity.
+  - rewrite !nth_error_app2 by exact L. destruct (j - length l1) eqn:E; [lia|reflexivity].
+Qed.
+
+Lemma interleave_single : forall ls w, Interleave ls w ->
+  forall i, (forall j l, nth_error ls j = Some l -> j <> i -> l = []) -> w = nth i ls [].
+Proof.
+  induction 1 as [ls H|ls1 f l ls2 w H IH]; intros i Hi.
+  - destruct (nth_error ls i) as [x|] eqn:E.
+    + rewrite (nth_error_nth _ _ _ E). rewrite Forall_forall in H. symmetry. apply H. eapply nth_error_In; eauto.
+    + rewrite nth_overflow; [reflexivity|]. apply nth_error_None. exact E.
+  - assert (Ei : i = length ls1).
+    { destruct (Nat.eq_dec (length ls1) i) as [E|E]; [auto|].
+      specialize (Hi (length ls1) (f :: l) (nth_error_mid _ _ _ _) E). discriminate. }
+    subst i. rewrite (nth_error_nth _ _ _ (nth_error_mid _ ls1 (f :: l) ls2)).
+    rewrite (IH (length ls1)).
+    + rewrite (nth_error_nth _ _ _ (nth_error_mid _ ls1 l ls2)). reflexivity.
+    + intros j x Hj Hne. rewrite (nth_error_mid_other _ ls1 l (f :: l) ls2 j Hne) in Hj. eapply Hi; eauto.
+Qed.
+
+Lemma filter_all : forall (p : frame -> bool) l, Forall (fun f => p f = true) l -> filter p l = l.
+Proof. induction 1 as [|f l Hf _ IH]; cbn [filter]; [reflexivity|]. rewrite Hf, IH. reflexivity. Qed.
+
+Lemma filter_none : forall (p : frame -> bool) l, Forall (fun f => p f = false) l -> filter p l = [].
+Proof. induction 1 as [|f l Hf _ IH]; cbn [filter]; [reflexivity|]. rewrite Hf. exact IH. Qed.
+
+(* n streams with pairwise different ids, each sequence carrying its own id: on
+   ANY order-preserving merge, the frames tagged with the i-th id are exactly the
+   i-th sequence, in order *)
+Lemma interleave_proj_l : forall ids fss w i,
+  NoDup ids -> length ids = length fss ->
+  (forall j sid fs, nth_error ids j = Some sid -> nth_error fss j = Some fs -> Forall (fun f => f_sid f = sid) fs) ->
+  Interleave fss w ->
+  forall sid fs, nth_error ids i = Some sid -> nth_error fss i = Some fs ->
+  frames_for sid w = fs.
+Proof.
+  intros ids fss w i ND Len Own IL sid fs Hs Hf.
+  pose proof (interleave_filter _ _ IL sid) as IL'.
+  rewrite (interleave_single _ _ IL' i).
+  - rewrite (nth_error_nth _ _ _ (map_nth_error (frames_for sid) _ _ Hf)).
+    apply filter_all. eapply Forall_impl; [|exact (Own i sid fs Hs Hf)]. intros f E. apply Nat.eqb_eq. exact E.
+  - intros j x Hj Hne. destruct (nth_error fss j) as [fj|] eqn:Ej.
+    2:{ apply nth_error_None in Ej. assert (nth_error (map (frames_for sid) fss) j = None) by (apply nth_error_None; rewrite map_length; exact Ej). congruence. }
+    rewrite (map_nth_error (frames_for sid) _ _ Ej) in Hj. inversion Hj; subst x.
+    destruct (nth_error ids j) as [sj|] eqn:Es.
+    2:{ apply nth_error_None in Es. assert (j < length fss) by (apply nth_error_Some; congruence). lia. }
+    apply filter_none. eapply Forall_impl; [|exact (Own j sj fj Es Ej)]. intros f E. apply Nat.eqb_neq. rewrite E.
+    intros X. subst sj. apply Hne. eapply NoDup_nth_error; eauto. apply nth_error_Some. congruence. congruence.
+Qed.
